@@ -59,6 +59,8 @@ THEOREMS = {
     "mutual-exclusion": "Asynkit.C14.wait_exit_holds_lock (lock abstraction)",
     "release-by-non-owner": "Asynkit.C14.wait_exit_holds_lock",
     "exception-identity": "Asynkit.C14.exception_identity",
+    "stuck-reacquiring": "Asynkit.C14.wait_exit_holds_lock (progress of the re-acquire loop: abstract lock refinement, "
+                         "C13 / C14StdLock)",
     "exception-swallowed": "Asynkit.C14.exception_identity (the model's `outcome`: a caught/pending exception is re-raised)",
     "foreign-exception": "Asynkit.C14.exception_identity",
     "notify-order": "Asynkit.C14.notify_order",
@@ -142,7 +144,8 @@ def execute(case, chooser=None):
     except core.InfraError:
         raise
     except BaseException as e:  # noqa: BLE001
-        r.bad.append(("crash", f"{type(e).__name__}: {e}"))
+        if type(e).__name__ != "Violation":
+            r.bad.append(("crash", f"{type(e).__name__}: {e}"))
     return r
 
 
